@@ -221,6 +221,21 @@ pub fn run_full(db: &Db, q: &str, describe: bool) -> Result<Run, String> {
     })
 }
 
+/// Take only the FIRST result and drop the iterator (what the crate's own doc example does): the phrases
+/// described so far.  None when the query does not parse or has no result.
+pub fn first_result_descriptions(db: &Db, q: &str) -> Result<Option<(bool, Vec<String>)>, String> {
+    guarded(q, || {
+        let parsed = parse(q).ok()?;
+        let mut descs = Vec::new();
+        let ok = {
+            let mut it = query(&parsed, db, Options::default().describe(), &mut descs);
+            let first = it.next()?;
+            first.is_ok()
+        };
+        Some((ok, descs.into_iter().map(|d| match d { Description::Constant(p, _) => p.to_string() }).collect()))
+    })
+}
+
 pub fn run(db: &Db, q: &str) -> Result<Vec<R>, String> {
     run_full(db, q, false).map(|r| r.results)
 }
